@@ -1,6 +1,6 @@
 """native helpers for c_e2e2.py (never interpreted by the prover)"""
 import ast
-import io
+import io, subprocess, sys
 import os
 import tempfile
 from pathlib import Path
@@ -99,8 +99,12 @@ def _xml(font, tag):
 # ---------------------------------------------------------------------------- C17
 
 
+class HarnessError(Exception):
+    pass
+
+
 def gen_bad_input(rng):
-    kind = rng.choice(["dup-codepoints", "dup-name", "dup-preexisting-name", "palette-conflict", "bad-fill", "bad-spread", "too-big-bitmap", "missing-svg", "unparsable-svg", "masters-differ", "dup-basename"])
+    kind = rng.choice(["dup-codepoints", "dup-codepoints-files", "dup-name", "dup-preexisting-name", "palette-conflict", "bad-fill", "bad-spread", "too-big-bitmap", "missing-svg", "unparsable-svg", "masters-differ", "dup-basename"])
     fmt = rng.choice(["glyf_colr_1", "glyf_colr_0", "picosvg", "untouchedsvg", "glyf"])
     return {"case": {"kind": kind, "fmt": fmt, "seed": rng.randrange(1 << 30)}}
 
@@ -119,6 +123,39 @@ def try_build(case):
             b = _simple_glyph(rng, (0x1F600,))
             r = build_any([a, b], dict(color_format=fmt, output_file="o.ttf"))
             out["font"] = r["font"]
+        elif kind == "dup-codepoints-files":
+            # two differently named files whose names resolve to the same codepoints, through
+            # the default glyph map generator
+            from picosvg.svg import SVG
+
+            a = _simple_glyph(rng, (0x1F600,))
+            b = _simple_glyph(rng, (0x1F600,))
+            c = _simple_glyph(rng, (0x1F601,))
+            stems = rng.choice([("emoji_u1f600", "u1f600"), ("emoji_u1F600", "emoji_u1f600"), ("u1f600", "1f600")])
+            cfg = e2e.default_config(color_format=fmt, output_file="o.ttf")
+            with tempfile.TemporaryDirectory(prefix="verif_e2e_") as d:
+                paths = []
+                for stem, g in ((stems[0], a), (stems[1], b), ("emoji_u1f601", c)):
+                    p = os.path.join(d, stem + ".svg")
+                    svg = SVG.fromstring(e2e.svg_text(g))
+                    if cfg.has_picosvgs:
+                        svg = svg.topicosvg(inplace=True)
+                    open(p, "w").write(svg.tostring())
+                    paths.append(p)
+                rng.shuffle(paths)
+                # (write_glyphmap defines a flag that collides with config's: own process)
+                csv_p = os.path.join(d, "Font.glyphmap")
+                src = next((p_ for p_ in sys.path if p_.endswith("/src") and os.path.isdir(os.path.join(p_, "nanoemoji"))), "/repo/src")
+                r_ = subprocess.run([sys.executable, "-m", "nanoemoji.write_glyphmap", "--output_file", csv_p] + paths, env=dict(os.environ, PYTHONPATH=src), capture_output=True, text=True, timeout=120)
+                if r_.returncode != 0:
+                    raise HarnessError("write_glyphmap failed: " + r_.stderr[-300:])
+                from nanoemoji import glyphmap
+
+                gms = glyphmap.parse_csv(csv_p)
+                fea = os.path.join(d, "features.fea")
+                open(fea, "w").write("")
+                inputs = list(write_font._inputs(cfg._replace(fea_file=fea), gms))
+                out["font"] = write_font._generate_color_font(cfg._replace(fea_file=fea), inputs)[1]
         elif kind == "dup-name":
             a = _simple_glyph(rng, (0x1F600,))
             b = _simple_glyph(rng, (0x1F601,))
@@ -192,7 +229,16 @@ wght = 700
                 open(p, "w").write(toml)
                 out["font"] = config.load(Path(p))
     except Exception as e:  # noqa: BLE001
-        out["raised"] = f"{type(e).__name__}: {e}"[:200]
+        import traceback
+
+        frames = traceback.extract_tb(e.__traceback__)
+        in_code = any(("/nanoemoji/" in f.filename or "/picosvg/" in f.filename or "/fontTools/" in f.filename or "/ufo2ft/" in f.filename or "/toml/" in f.filename) for f in frames)
+        if isinstance(e, HarnessError) or type(e).__name__ in ("DuplicateFlagError", "ImportError", "ModuleNotFoundError") or not in_code:
+            # an error of this harness is not a rejection by nanoemoji
+            out["raised"] = None
+            out["harness_error"] = f"{type(e).__name__}: {e}"[:300]
+        else:
+            out["raised"] = f"{type(e).__name__}: {e}"[:200]
         out["font"] = None
     return out
 
@@ -250,8 +296,12 @@ _SEQS = [
 def gen_sequences_set(rng):
     seqs = rng.sample(_SEQS, rng.randint(2, 6))
     glyphs = [_simple_glyph(rng, s, vb=rng.choice(e2e._VIEWBOXES)) for s in seqs]
-    fmt = rng.choice(["glyf_colr_1", "glyf_colr_1", "glyf_colr_0", "picosvg", "glyf", "cff_colr_1"])
-    over_ = dict(color_format=fmt, output_file="o.otf" if fmt.startswith("cff") else "o.ttf", keep_glyph_names=rng.random() < 0.7)
+    fmt = rng.choice(["glyf_colr_1", "glyf_colr_1", "glyf_colr_0", "picosvg", "glyf", "cff_colr_1", "untouchedsvg", "sbix", "cbdt"])
+    over_ = dict(color_format=fmt, output_file="o.otf" if fmt.startswith("cff") else "o.ttf", keep_glyph_names=rng.random() < (0.3 if fmt in ("sbix", "cbdt") else 0.6))
+    if fmt in ("sbix", "cbdt"):
+        # one distinguishable bitmap per source
+        over_["bitmap_resolution"] = 64
+        over_["_pngs"] = [_png(64, 64, (10 + 37 * i % 240, 200 - 23 * i % 200, 5 + 11 * i)) for i in range(len(glyphs))]
     return {"glyphs": glyphs, "overrides": over_}
 
 
@@ -383,6 +433,15 @@ def artwork_problems(glyphs, result):
         cx = sum(p[0] for p in sh.pts) / len(sh.pts)
         cy = sum(p[1] for p in sh.pts) / len(sh.pts)
         adv = font["hmtx"][name][0]
+        if "sbix" in font or "CBDT" in font:
+            png = result["pngs"][glyphs.index(g)]
+            if "sbix" in font:
+                imgs = [st.glyphs[name].imageData for st in font["sbix"].strikes.values() if name in st.glyphs]
+            else:
+                imgs = [bytes(data[name].imageData) for data in font["CBDT"].strikeData if name in data]
+            if len(imgs) != 1 or imgs[0] is None or bytes(imgs[0]) != png:
+                bad.append((g.codepoints, name, "glyph does not carry the source's bitmap", len(imgs)))
+            continue
         if "COLR" in font:
             F = e2e.placement(g.viewbox, cfg.ascender, cfg.descender, adv, tuple(cfg.transform))
             c = e2e.ColrEval(font).glyph_color(name, e2e.ap(F, (cx, cy)))
